@@ -242,6 +242,7 @@ func c06History(r *rand.Rand, n int, script []func(ov dom.OverlayDocument, ref *
 					return
 				}
 				ov.Populate(layer, path, &data)
+				fail = append(fail, c06TypedPopulate(r)...)
 				if r.Intn(4) == 0 { // (on an overlay of its own) a populated map may hold lists with null items: every item once, in place
 					pm := map[string]any{"servers": []any{"alpha", nil, "gamma"}, "n": map[string]any{"l": []any{nil, nil, 1, []any{nil, 2}}}}
 					ov2 := dom.NewOverlayDocument()
@@ -525,7 +526,7 @@ func init() {
 	}
 	register(&Prop{
 		ID:   "C06",
-		Rule: "histories of 1-30 overlay operations over 3 layer names and a pool of path-safe paths (indices 0-4, chains to depth 2): Put (leaf / list / container incl. leafless containers), Add (one source container sometimes added to two layers), Populate (root or path), interleaved with Lookup(layer), LookupAny, Search, Walk (complete and with an early stop), Merged(default / append) + Serialize; writes that would descend through an existing scalar or list are skipped (outside the property); values carry no nulls. After every write: LayerNames() and Layers() vs the Coq model; reads vs the model; Go side: per-layer plain reference, first-write order, first-hit, fold of the reference merge, Layers() snapshots re-read after all later writes, OverlayDocs(ov,ov) empty. Non-trivial: >= 2 layers written. Distinct by Gallina term. After every write the slice returned by LayerNames() is reordered and overwritten by the caller. A quarter of the Populate steps also populate, on an overlay of its own, a map whose lists hold null items. The separate overlay also gets a container Put at the root path.",
+		Rule: "histories of 1-30 overlay operations over 3 layer names and a pool of path-safe paths (indices 0-4, chains to depth 2): Put (leaf / list / container incl. leafless containers), Add (one source container sometimes added to two layers), Populate (root or path), interleaved with Lookup(layer), LookupAny, Search, Walk (complete and with an early stop), Merged(default / append) + Serialize; writes that would descend through an existing scalar or list are skipped (outside the property); values carry no nulls. After every write: LayerNames() and Layers() vs the Coq model; reads vs the model; Go side: per-layer plain reference, first-write order, first-hit, fold of the reference merge, Layers() snapshots re-read after all later writes, OverlayDocs(ov,ov) empty. Non-trivial: >= 2 layers written. Distinct by Gallina term. After every write the slice returned by LayerNames() is reordered and overwritten by the caller. A quarter of the Populate steps also populate, on an overlay of its own, a map whose lists hold null items. The separate overlay also gets a container Put at the root path. Every Populate step also populates, on an overlay of its own, numbers of every sized and unsigned Go kind (up to the largest uint64) in members and list items, at the root and under a path, and reads each back with its kind and value.",
 		Corpus: func() []Case {
 			s := shared()
 			return []Case{
@@ -538,4 +539,42 @@ func init() {
 			return c06History(r, 1+r.Intn(30), nil)
 		},
 	})
+}
+
+// c06TypedPopulate: numbers of every Go kind written through Populate are read back as the very values written
+// (kind and value), inside maps and lists, at the root and under a path.
+func c06TypedPopulate(r *rand.Rand) []string {
+	var fail []string
+	vals := []any{int64(5), int32(-3), int16(300), int8(-8), uint(9), uint8(7), uint16(65535), uint32(4000000000),
+		uint64(18446744073709551615), uint64(1) << 63, float32(1.5), int64(-9223372036854775808), 2.5, 3, "s", true}
+	r.Shuffle(len(vals), func(i, j int) { vals[i], vals[j] = vals[j], vals[i] })
+	vals = vals[:4+r.Intn(5)]
+	pm := map[string]any{"l": []any{}}
+	for i, v := range vals {
+		pm[fmt.Sprintf("k%d", i)] = v
+		pm["l"] = append(pm["l"].([]any), v)
+	}
+	path := []string{"", "a", "a.b"}[r.Intn(3)]
+	ov := dom.NewOverlayDocument()
+	ov.Populate("t", path, &pm)
+	pre := path
+	if pre != "" {
+		pre += "."
+	}
+	for i, v := range vals {
+		for _, q := range []string{fmt.Sprintf("%sk%d", pre, i), fmt.Sprintf("%sl[%d]", pre, i)} {
+			n := ov.Lookup("t", q)
+			if n == nil || !n.IsLeaf() {
+				fail = append(fail, fmt.Sprintf("after Populate of %T(%v), Lookup(%s) finds no leaf", v, v, q))
+				continue
+			}
+			if got := n.(dom.Leaf).Value(); !reflect.DeepEqual(got, v) {
+				fail = append(fail, fmt.Sprintf("after Populate of %T(%v), Lookup(%s) reads %T(%v)", v, v, q, got, got))
+			}
+			if m := ov.LookupAny(q); m == nil || !m.IsLeaf() || !reflect.DeepEqual(m.(dom.Leaf).Value(), v) {
+				fail = append(fail, fmt.Sprintf("after Populate of %T(%v), LookupAny(%s) does not read it back", v, v, q))
+			}
+		}
+	}
+	return fail
 }
